@@ -59,7 +59,7 @@ def _summand(kind, vals, i):
         return [[i, float(v).hex()]]
     arr = np.array([v, -v, vals[(i + 1) % len(vals)]], dtype=np.float64)
     if kind == "ndarray":
-        return arr
+        return arr.reshape(3, 1)     # two-dimensional: the shape sent ahead of the buffer matters
     dom = ift.DomainTuple.make(ift.UnstructuredDomain(3))
     if kind == "field":
         return ift.makeField(dom, arr)
@@ -95,7 +95,7 @@ def _enc(kind, x):
     if kind == "ndarray0":
         return [float(x).hex(), list(np.shape(x))]
     if kind == "ndarray":
-        return [float(t).hex() for t in np.asarray(x).ravel()]
+        return [float(t).hex() for t in np.asarray(x).ravel()] + [list(np.shape(x))]
     if kind == "field":
         return [float(t).hex() for t in x.val.asnumpy().ravel()]
     d = x.to_dict()
@@ -112,6 +112,8 @@ def _enc_plain(kind, x):
         return [float(x).hex()]
     if kind == "ndarray0":
         return [float(x).hex(), []]
+    if kind == "ndarray":
+        return [float(t).hex() for t in np.asarray(x).ravel()] + [[3, 1]]
     return [float(t).hex() for t in np.asarray(x).ravel()]
 
 
